@@ -14,6 +14,7 @@ EXPLANATION = (
     "only and pass duplicate rejection, the forked history is bounded by the fork tick and every lane-bearing field of a "
     "copied entry is rewritten; (R5) basis handling is total over the revalidation states. Isolation of parent and strand "
     "as a behavioural fact is NOT decided."
+    ' Round 2 (R6): the divergence / parent-movement footprints are collected from every recorded patch — collection never inspects the provenance event kind.'
 )
 ASSUMPTIONS = ["Clone of runtime/provenance captures their full value", "C05/C07 clauses cover replay verification used by fork"]
 FLOOR = 35
